@@ -1797,7 +1797,8 @@ pub fn char_length() -> impl Function {
     Pointwise::univariate(
         data_type::Text::default(),
         data_type::Integer::default(),
-        |a| a.len().try_into().unwrap(),
+        // CHAR_LENGTH counts characters, not the bytes of their UTF-8 encoding
+        |a| a.chars().count().try_into().unwrap(),
     )
 }
 
